@@ -580,6 +580,10 @@ pub fn c03_strategy() -> BoxedStrategy<SchedCase> {
 // properties
 // ------------------------------------------------------------------------------------------------
 
+fn c_frames(len: &usize, block: usize) -> usize {
+    (*len + block - 1) / block.max(1)
+}
+
 pub fn run_c05(ctx: &Ctx) {
     ctx.rule(
         "cases = (config with multithread, >= 3-frame input (a tenth: empty or 1..15-sample inputs), workers in {1..8, None}, FLACENC_WORKERS in {unset, 1..8, '0', '', 'abc', '-1', ' 2', 2^70, '00'}, schedule = (strategy uniform | PCT | starve-the-hashing-thread | starve-the-feeder | starve-the-workers, choice bytes, seed); a fifth of the cases read from a packet source (short reads in mid-stream); a quarter of the cases have 17..=45 frames (more than the hashing queue and the frame buffers hold)); \
@@ -597,7 +601,7 @@ pub fn run_c05(ctx: &Ctx) {
         .into_iter()
         .filter(|c| c.entry == super::common::Entry::Multi)
         .enumerate()
-        .map(|(i, c)| SchedCase {
+        .map(|(i, c)| { let (c_len, c_block) = (c.inp.len, c.cfg.block_size); SchedCase {
             purpose: "c05".into(),
             cfg: { let mut k = c.cfg.clone(); k.workers = Some(2 + i % 5); k },
             inp: c.inp,
@@ -605,14 +609,15 @@ pub fn run_c05(ctx: &Ctx) {
             fill_empty_at_end: i % 4 < 2,
             faults: vec![],
             env: None,
-            strategy: [9u8, 10, 11, 12][i % 4],
+            // the slowed-down variants (10..12) sleep at every hook point: only for streams of a few thousand frames
+            strategy: if c_frames(&c_len, c_block) > 5000 { 9 } else { [9u8, 10, 11, 12][i % 4] },
             pct_depth: 0,
             choices: vec![],
             sched_seed: crate::util::mix(ctx.seed, i as u64),
             sched_seed2: 1,
             packet: 0,
             len_hint: i % 3 != 0,
-        })
+        }})
         .collect();
     let nb = big.len() as u64;
     ctx.enumerate("real-threads-thousands-of-frames", 6, nb, |i| big[i as usize].clone(), check);
